@@ -101,7 +101,7 @@ class SymPath:
 
 
 class _State:
-    __slots__ = ("store", "conds", "events", "repl", "loops", "known", "handler", "_outcome")
+    __slots__ = ("store", "conds", "events", "repl", "loops", "known", "handler", "_outcome", "born")
 
     def __init__(self):
         self.store: dict = {}
@@ -111,6 +111,7 @@ class _State:
         self.loops: tuple = ()
         self.known: dict = {}  # canonical test text -> bool (facts established on this path)
         self.handler = False
+        self.born: dict = {}  # local name -> the loops that enclosed the binding of its list literal
 
     def fork(self) -> "_State":
         s = _State()
@@ -121,6 +122,7 @@ class _State:
         s.loops = self.loops
         s.known = dict(self.known)
         s.handler = self.handler
+        s.born = dict(self.born)
         return s
 
 
@@ -411,12 +413,19 @@ class Explorer:
             return False
 
         def body_value(c):
+            record = c.is_dataclass or any((dotted(b) or "").split(".")[-1] == "NamedTuple" for b in c.node.bases)
             for st_ in c.node.body:
                 tgt = val = None
                 if isinstance(st_, ast.Assign) and len(st_.targets) == 1:
                     tgt, val = st_.targets[0], st_.value
                 elif isinstance(st_, ast.AnnAssign) and st_.value is not None:
                     tgt, val = st_.target, st_.value
+                    if record and "ClassVar" not in unparse(st_.annotation):
+                        # a field of a dataclass / named tuple: the class-level value is only the default of an
+                        # instance attribute that the generated constructor stores
+                        if isinstance(tgt, ast.Name) and tgt.id == attr:
+                            return ast.Call(func=ast.Name(id="<field>", ctx=ast.Load()), args=[], keywords=[])
+                        continue
                 if isinstance(tgt, ast.Name) and tgt.id == attr:
                     return val
             return None
@@ -427,6 +436,21 @@ class Explorer:
         except Exception:  # noqa: BLE001
             mro = [start]
         stored = any(isinstance(x, ast.Attribute) and isinstance(x.ctx, ast.Store) and x.attr == attr and isinstance(x.value, ast.Name) and x.value.id in ("self", "cls") for c in mro for m in c.methods.values() for x in ast.walk(m.node))
+        if not stored:
+            # … or on some other object of the program under this name (`new.attr = …`, setattr(obj, "attr", …))
+            own = {id(m.node) for c in mro for m in c.methods.values()}
+
+            def sets(x, g) -> bool:
+                if isinstance(x, ast.Attribute) and isinstance(x.ctx, ast.Store) and x.attr == attr:
+                    return True
+                if isinstance(x, ast.Call) and ((isinstance(x.func, ast.Name) and x.func.id == "setattr") or (isinstance(x.func, ast.Attribute) and x.func.attr == "__setattr__")) and len(x.args) >= 2:
+                    name = x.args[-2] if len(x.args) >= 3 or isinstance(x.func, ast.Name) else x.args[0]
+                    if isinstance(name, ast.Constant):
+                        return name.value == attr
+                    return id(g.node) in own  # a computed name: any attribute of this hierarchy's instances
+                return False
+
+            stored = any(sets(x, g) for g in self.prog.funcs if g.module.name.split(".")[0] == fi.module.name.split(".")[0] for x in ast.walk(g.node))
         if not stored and not any(attr in c.methods for c in mro):
             for c in mro:
                 v = body_value(c)
@@ -967,6 +991,10 @@ class Explorer:
     def _bind(self, target: ast.AST, value: ast.AST, st: _State, fi, depth, node) -> None:
         if isinstance(target, ast.Name):
             st.store[target.id] = value
+            if isinstance(value, ast.List):
+                st.born[target.id] = st.loops
+            else:
+                st.born.pop(target.id, None)
         elif isinstance(target, (ast.Tuple, ast.List)):
             if isinstance(value, (ast.Tuple, ast.List)) and len(value.elts) == len(target.elts) and not any(isinstance(e, ast.Starred) for e in [*value.elts, *target.elts]):
                 for t, v in zip(target.elts, value.elts):
@@ -1107,7 +1135,11 @@ class Explorer:
                 cur = st.store.get(c.func.value.id)
                 if isinstance(cur, ast.List) and not any(isinstance(x, ast.Starred) for x in cur.elts):
                     arg = csub.args[0]
-                    if c.func.attr == "append":
+                    born = st.born.get(c.func.value.id)
+                    if c.func.attr == "append" and born is not None and len(st.loops) > len(born) and st.loops[: len(born)] == born:
+                        # appended in a loop that the list was created outside of: any number of such items
+                        st.store[c.func.value.id] = ast.List(elts=[*cur.elts, ast.Starred(value=ast.Call(func=ast.Name(id=LOOP, ctx=ast.Load()), args=[arg], keywords=[]), ctx=ast.Load())], ctx=ast.Load())
+                    elif c.func.attr == "append":
                         st.store[c.func.value.id] = ast.List(elts=[*cur.elts, arg], ctx=ast.Load())
                     else:
                         items = self.literal_items(arg, fi)
